@@ -395,7 +395,8 @@ PROPS = {
                            "Rodbus.C01.reply_pdu_len", "Rodbus.C01.unknown_function_reply", "Rodbus.C01.invalid_request_reply",
                            "Rodbus.C01.read_bits_payload", "Rodbus.C01.read_regs_payload", "Rodbus.C01.first_exception_reply",
                            "Rodbus.C01.write_echo", "Rodbus.C01.session_replies", "Rodbus.Tables.fc_table_correct",
-                           "Rodbus.Tables.exception_roundtrip", "Rodbus.Tables.server_limits_correct"],
+                           "Rodbus.Tables.exception_roundtrip", "Rodbus.Tables.server_limits_correct",
+                           "Rodbus.C01Stream.stream_replies", "Rodbus.C01Stream.session_chunking_independent"],
         suites=[dict(gen="srv_tcp", n=(2500, 150000),
                      exhaustive="MBAP: every function byte 0..255 x payload lengths {0,1,3,4,5,6} (0..12 thorough) x {configured, unconfigured} unit; "
                                 "quantity x start boundary lattice for the six ranged functions"),
